@@ -263,11 +263,13 @@ class ScopeMonitor(Monitor):
 
 
 class FalloffMonitor(Monitor):
-    """C16: the pc never moves from one function's extent into the next without a taken jump"""
+    """C16: the pc never moves from one function's extent into the next without a taken jump, and every return (a jump
+    through a register) goes to the instruction after the call that created the activation"""
 
     def init(self, vm):
-        info_of(vm)
-        return {}
+        pi = info_of(vm)
+        aw = pi.P.labels.get('all_is_win')
+        return {'ret': ((pi.stack_end, aw[1]),) if aw else (), 'nret': 0}
 
     def step(self, vm, st, pc, ins, conds):
         pp = st.prev_pc
@@ -276,3 +278,26 @@ class FalloffMonitor(Monitor):
             if fo[pc] != fo[pp]:
                 raise Violation('control fell off the end of a function into the next one', frm=pp, to=pc,
                                 to_labels=info_of(vm).label_at.get(pc))
+
+    def jump(self, vm, st, ins, tgt, operand):
+        pi = info_of(vm)
+        fp = cur(vm, st, pi.fp)
+        if not isc(fp):
+            return
+        code = vm.P.code
+        if operand.kind == 'imm':
+            # a call: an unconditional jump (j f / halt) to the first instruction of a function or library routine;
+            # the activation is identified by the callee frame pointer, which the call sequence has already set
+            if tgt in pi.func_starts and st.pc + 1 < len(code) and code[st.pc + 1].op == 'halt':
+                st.m['ret'] = tuple((f, r) for f, r in st.m['ret'] if f != fp) + ((fp, st.pc + 2),)
+            return
+        if operand.kind != 'state' or operand.val == pi.defeat:
+            return
+        # a return
+        exp = dict(st.m['ret']).get(fp)
+        if exp is None:
+            return
+        st.m['nret'] += 1
+        if tgt != exp:
+            raise Violation('a return does not go back to its caller', target=tgt, target_labels=pi.label_at.get(tgt), expected=exp,
+                            expected_labels=pi.label_at.get(exp), fp=fp)
